@@ -24,7 +24,8 @@ pub fn tokens_of(s: &Sentence) -> Result<Vec<Tok>, String> {
     guard(|| {
         let mut out = vec![];
         let mut n = 0;
-        for t in s.iter_tokens() {
+        let mut it = s.iter_tokens();
+        while let Some(t) = it.next() {
             n += 1;
             if n > 10_000 {
                 panic!("token iterator does not terminate");
@@ -32,6 +33,12 @@ pub fn tokens_of(s: &Sentence) -> Result<Vec<Tok>, String> {
             let surface = t.surface().to_string();
             let tags = t.tags().iter().map(|x| x.as_ref().map(|x| x.to_string())).collect();
             out.push((t.start(), t.end(), surface, tags));
+        }
+        // "each reported once": polling an exhausted iterator again must not report anything more
+        for again in 1..=3 {
+            if let Some(t) = it.next() {
+                panic!("token iterator yielded [{}, {}) at poll {again} after it had returned None", t.start(), t.end());
+            }
         }
         out
     })
